@@ -102,8 +102,8 @@ export function renderType(t) {
       if (t.style === "readonly[]") return `readonly ${wrap(t.el, "postfix")}[]`;
       return `${wrap(t.el, "postfix")}[]`;
     case "tuple": {
-      const items = t.items.map(renderType);
-      if (t.rest) items.push(`...${wrap(t.rest, "postfix")}[]`);
+      const items = t.items.map((x, i) => (t.labels ? `m${i}: ` : "") + renderType(x));
+      if (t.rest) items.push(t.labels ? `...rest: ${wrap(t.rest, "postfix")}[]` : `...${wrap(t.rest, "postfix")}[]`);
       return `${t.ro ? "readonly " : ""}[${items.join(", ")}]`;
     }
     case "obj": {
